@@ -31,6 +31,7 @@ mod dirmount;
 mod openapi;
 mod schema;
 mod server;
+mod timers;
 
 pub type RunFn = fn(&Value) -> Value;
 
@@ -54,6 +55,7 @@ fn subcommand(name: &str) -> Option<RunFn> {
         "openapi" => openapi::run,
         "schema" => schema::run,
         "server" => server::run,
+        "timers" => timers::run,
         _ => return None,
     })
 }
@@ -196,6 +198,7 @@ fn main() {
                 "openapi" => openapi::gen,
                 "schema" => schema::gen,
                 "server" => server::gen,
+                "timers" => timers::gen,
                 "sd" => sd::gen,
                 "fmt" => fmt::gen,
                 "cors" => cors::gen,
